@@ -264,8 +264,12 @@ func (t *c12Recorder) WriteString(s string) (int, error) {
 	t.ops = append(t.ops, c12Op{2, []byte(s)})
 	return len(s), nil
 }
-func (t *c12Recorder) Read(p []byte) (int, error)      { return 0, thrift.NewTTransportException(thrift.END_OF_FILE, "recorder") }
-func (t *c12Recorder) ReadByte() (byte, error)         { return 0, thrift.NewTTransportException(thrift.END_OF_FILE, "recorder") }
+func (t *c12Recorder) Read(p []byte) (int, error) {
+	return 0, thrift.NewTTransportException(thrift.END_OF_FILE, "recorder")
+}
+func (t *c12Recorder) ReadByte() (byte, error) {
+	return 0, thrift.NewTTransportException(thrift.END_OF_FILE, "recorder")
+}
 func (t *c12Recorder) RemainingBytes() uint64          { return 0 }
 func (t *c12Recorder) Flush(ctx context.Context) error { return nil }
 func (t *c12Recorder) Open() error                     { return nil }
